@@ -1,6 +1,7 @@
 #!/bin/bash
 # Replay every regression replay against the original (pre-fix) tree and against /repo:
-# each must reproduce (class and digest) on the original tree and show no violation on /repo.
+# each must show its violation on the original tree (rc 1 = same class and digest; rc 3 = a violation with another
+# digest, possible for replays recorded after earlier repairs) and none on /repo (except the open finding F11).
 ROOT=$(cd "$(dirname "$(readlink -f "$0")")/.." && pwd)
 W=$(mktemp -d /tmp/bqsim-orig-XXXXXX); rmdir "$W"
 git -C /repo worktree add --detach -q "$W" 22c33c4 || exit 2
@@ -9,7 +10,8 @@ RC=0
 for f in "$ROOT"/replays/regress/*.json; do
   BQSIM_REPO="$W" /venv/bin/python "$ROOT/run_check.py" --replay "$f" --quiet >/dev/null; a=$?
   /venv/bin/python "$ROOT/run_check.py" --replay "$f" --quiet >/dev/null; b=$?
-  echo "$(basename "$f"): original tree rc=$a (want 1)  /repo rc=$b (want 0)"
-  [ $a -eq 1 ] && [ $b -eq 0 ] || RC=1
+  want=0; case "$(basename "$f")" in F11-*) want=1;; esac    # F11 is an open known finding: still reproduces on /repo
+  echo "$(basename "$f"): original tree rc=$a (want 1 or 3)  /repo rc=$b (want $want)"
+  { [ $a -eq 1 ] || [ $a -eq 3 ]; } && [ $b -eq $want ] || RC=1
 done
 exit $RC
